@@ -56,7 +56,11 @@ def _poly_worker(ob_repr, conn):
         if isinstance(ob_repr, tuple) and ob_repr and ob_repr[0] == "POSCOEF":
             ok, detail = cas.check_poscoef(ob_repr[1:])
         else:
-            ok, detail = cas.check_identity_srepr(ob_repr)
+            r_ = cas.check_identity_srepr(ob_repr)
+            ok, detail = r_[0], r_[1]
+            if not ok and len(r_) > 2:
+                conn.send({"result": "sat", "reason": detail, "model": r_[2], "time": time.time() - t0})
+                return
         conn.send({"result": "unsat" if ok else "unknown", "reason": detail, "time": time.time() - t0})
     except Exception as e:
         conn.send({"result": "error", "reason": repr(e), "time": time.time() - t0})
